@@ -495,6 +495,37 @@ theorem yuv_f32_error_bound (bits y u v : Nat) (hb : bits = 8 ∨ bits = 10 ∨ 
   · exact (Dds.YuvErr.yuv10_f32_ok y u v hy hu hv).1
   · exact (Dds.YuvErr.yuv16_f32_ok y u v hy hu hv).1
 
+/-- SATURATION (most of the `u, v` cube): whenever the unclamped ideal value of a channel (`Spec.yuvRaw`) is at least
+`1 + 2^-20` the output is exactly the maximum — 255, 65535, the float 1.0 — and whenever it is at most `−2^-20` it is
+exactly 0 (the float `+0.0`), at every depth and precision, for all inputs.  (`Spec.satOk`; the margin 2^-20 covers
+the proved evaluation error `10·2^-24`.) -/
+theorem yuv_saturation (bits prec y u v : Nat) (hb : bits = 8 ∨ bits = 10 ∨ bits = 16) (hp : prec < 3)
+    (hy : y < 2 ^ bits) (hu : u < 2 ^ bits) (hv : v < 2 ^ bits) :
+    yuvAll (satOk prec) (Spec.yuvRaw bits y u v) (yuvTo bits prec y u v) = true := by
+  have hp' : prec = 0 ∨ prec = 1 ∨ prec = 2 := by omega
+  rcases hb with rfl | rfl | rfl
+  · obtain ⟨s2, s1, s0⟩ := Dds.YuvErr.yuv8_sat y u v (by omega) (by omega) (by omega)
+    rcases hp' with rfl | rfl | rfl
+    · exact s0
+    · exact s1
+    · exact s2
+  · obtain ⟨s2, s1, s0⟩ := Dds.YuvErr.yuv10_sat y u v (by omega) (by omega) (by omega)
+    rcases hp' with rfl | rfl | rfl
+    · exact s0
+    · exact s1
+    · exact s2
+  · obtain ⟨s2, s1, s0⟩ := Dds.YuvErr.yuv16_sat y u v (by omega) (by omega) (by omega)
+    rcases hp' with rfl | rfl | rfl
+    · exact s0
+    · exact s1
+    · exact s2
+example : yuvTo 8 2 255 255 255 = [one, 1056673386, one] ∧ yuvTo 8 2 0 0 0 = [0, 1057495908, 0] ∧
+    Spec.yuvRaw 8 255 255 255 = (240491483 / 127500000, 125286827 / 255000000, 178158667 / 85000000) ∧
+    Spec.yuvRaw 8 0 0 0 = (-13932599 / 15937500, 8473457 / 15937500, -5767413 / 5312500) ∧
+    (1 + 1 / 1048576 ≤ (Spec.yuvRaw 8 255 255 255).1) ∧ ((Spec.yuvRaw 8 0 0 0).1 ≤ -(1 / 1048576)) ∧
+    Spec.yuv 8 255 255 255 = (clamp01 (Spec.yuvRaw 8 255 255 255).1, clamp01 (Spec.yuvRaw 8 255 255 255).2.1,
+      clamp01 (Spec.yuvRaw 8 255 255 255).2.2) := by decide +kernel
+
 /-- the statement behind them — the standard model of floating-point arithmetic, proved for the software binary32: on
 finite operands whose exact result `v` lies in `(−2^E, 2^E)` (`E ≤ 127`, so no overflow) each of `a * b`, `a + b`,
 `a − b` is finite and within `2^(E−25)` (half an ulp of the binade below `2^E`) of `v` -/
